@@ -40,9 +40,9 @@ CONSTANTS
   GRPCBUF = 3
   MAXREC = 5
   Window = %d
-  RelayCap = 2
-  RetxDepth = 1
-  MaxHs = 1
+  RelayCap = %d
+  RetxDepth = %d
+  MaxHs = 2
   MaxWrites = %d
   MaxFaults = %d
   RelayMayDie = TRUE
@@ -80,21 +80,26 @@ CHECK_DEADLOCK FALSE
 def model_check(ctx):
     quick = ctx.tier == "quick"
     states = trans = 0
-    cfgs = [("one", "Spec", "OneDir", "OneHs", 3, 2, 1 if quick else 2, INV),
-            ("both", "Spec", "BothDirs", "NoHs", 2, 1, 1, INV),
-            ("live", "LiveSpec", "OneDir", "NoHs", 3, 2, 1 if quick else 2,
+    # (name, spec, dirs, handshake lengths, window, relay cap, retx depth,
+    #  writes, faults, properties); sizes measured: one ~65 k states, one4
+    #  ~1 M (6 s), big ~7.7 M (40 s), both3 ~71 M (9 min, 12 workers)
+    cfgs = [("one", "Spec", "OneDir", "OneHs", 3, 2, 1, 2, 2, INV),
+            ("one4", "Spec", "OneDir", "OneHs", 4, 2, 2, 3, 2, INV),
+            ("both", "Spec", "BothDirs", "NoHs", 2, 2, 1, 1, 2, INV),
+            ("live", "LiveSpec", "OneDir", "NoHs", 3, 2, 1, 2, 2,
              "PROPERTIES CompletesOrFails")]
     if not quick:
-        cfgs.append(("one4", "Spec", "OneDir", "NoHs", 4, 3, 1, INV))
-    for name, spec, dirs, hs, win, wr, faults, props in cfgs:
-        r = tlc(ctx, "MC_LNC", MC % (spec, dirs, hs, win, wr, faults, "none", props),
-                "mc_lnc_" + name, timeout=3000)
+        cfgs.append(("big", "Spec", "OneDir", "OneHs", 4, 3, 2, 3, 3, INV))
+        cfgs.append(("both3", "Spec", "BothDirs", "NoHs", 3, 2, 1, 2, 2, INV))
+    for name, spec, dirs, hs, win, cap, retx, wr, faults, props in cfgs:
+        r = tlc(ctx, "MC_LNC", MC % (spec, dirs, hs, win, cap, retx, wr, faults, "none", props),
+                "mc_lnc_" + name, workers=12, timeout=3000)
         if not r["ok"]:
             raise Infra("LNC.tla (%s) violates %s:\n%s" % (name, r["violated"], r["out"][-1500:]))
         states += r["distinct"]
         trans += r["generated"]
     for part in ("hdr", "body"):
-        m = tlc(ctx, "MC_LNC", MC % ("Spec", "OneDir", "NoHs", 3, 1, 0, part, INV),
+        m = tlc(ctx, "MC_LNC", MC % ("Spec", "OneDir", "NoHs", 3, 2, 1, 1, 0, part, INV),
                 "mc_lnc_leak_" + part, timeout=600)
         if m["violated"] != "CiphertextOnly":
             raise Infra("specification mutant leaky-%s not caught" % part)
